@@ -16,7 +16,8 @@ EXTRA_TARGETS = ["MG.DriverEng"]
 THEOREMS = {
     "MG.Proofs.C14": [
         "MG.C14.seed_none_is_vjp_of_sum",
-        "MG.C14.seed_array_is_vjp_of_mul_sum",
+        "MG.C14.seed_rule",
+        "MG.C14.seed_shape",
         "MG.C14.bad_seed_rejected_no_write",
         "MG.C14.stored_grads_have_tensor_shape",
     ]
